@@ -34,6 +34,9 @@ def base_programs(quick):
               "def relay(helper):\n    return helper\ndef helper(a):\n    return a\nt = src()\nshow(t)\nu = relay(t)\nsnk(u)\nw = token()\n")
     s0, k0 = taintgen.rules("call", "call")
     out.append({"name": "taint:param-shadows-later-function", "files": {"main.py": shadow}, "settings": taintgen.settings([s0], [k0])})
+    # the same program twice, in two files: flows with coinciding line numbers in different files are different flows
+    twin = taintgen.build(("copy",), "call", "call", "top", "one")
+    out.append({"name": "taint:twin-files", "files": {"main.py": twin["main"], "twin.py": twin["main"]}, "settings": taintgen.settings([s0], [k0])})
     kinds = ["direct", "method", "inherited", "callback", "returned", "stored-var", "recursion", "two-sites"]
     if quick:
         kinds = kinds[:5]
@@ -77,9 +80,9 @@ def edits(prog, quick):
     for nm in RENAMABLE:
         if not re.search(r"\b%s\b" % re.escape(nm), alltext):
             continue
-        new_nm = nm + "_rn"
-        nf = {f: re.sub(r"\b%s\b" % re.escape(nm), new_nm, t) for f, t in files.items()}
-        yield (f"rename:{nm}", nf, ident, {nm: new_nm})
+        for tag, new_nm in (("rename", nm + "_rn"), ("rename-underscore", "_" + nm)):
+            nf = {f: re.sub(r"\b%s\b" % re.escape(nm), new_nm, t) for f, t in files.items()}
+            yield (f"{tag}:{nm}", nf, ident, {nm: new_nm})
     for (a, b, k1, n1), (c, d, k2, n2) in zip(blocks, blocks[1:]):
         if k1 in ("def", "class") and k2 in ("def", "class") and b == c:
             blk2 = "\n".join(lines[c:d])
